@@ -40,10 +40,10 @@ def section(rng, path, kind="change", fmt=None, width=None, nonl=True):
     if fmt == "normal":
         hs = gen.hunks_from_ops(ops, 0)
         # a normal diff names no file: the name comes from an Index: line (or from the command line)
-        text = ("Index: %s\n" % path).encode("latin-1") + ("diff %s %s\n" % (path + ".orig", path)).encode("latin-1") + emit.emit_normal(ops)
+        text = ("Index: b/%s\n" % path).encode("latin-1") + ("diff a/%s b/%s\n" % (path, path)).encode("latin-1") + emit.emit_normal(ops)
     elif fmt == "context":
-        oldn = "/dev/null" if kind == "add" else path + ".orig"
-        text = emit.emit_context(oldn, path, hs, "2024-01-01 00:00:00.000000000 +0000", "2024-01-02 00:00:00.000000000 +0000")
+        oldn = "/dev/null" if kind == "add" else "a/" + path
+        text = emit.emit_context(oldn, "b/" + path, hs, "2024-01-01 00:00:00.000000000 +0000", "2024-01-02 00:00:00.000000000 +0000")
     elif fmt == "git":
         if kind == "mode":
             mo, mn = "100644", rng.choice(["100755", "100600", "100664"])
@@ -51,11 +51,10 @@ def section(rng, path, kind="change", fmt=None, width=None, nonl=True):
             mn = "100755"
         text = emit.emit_git(path, newpath, hs, kind=("change" if kind == "mode" else kind), old_mode=mo, new_mode=mn)
     else:
-        oldn = "/dev/null" if kind == "add" else path + ".orig"
-        newn = "/dev/null" if kind == "delete" else path
-        text = emit.emit_unified(oldn, newn if kind != "delete" else "/dev/null", hs, "2024-01-01 00:00:00.000000000 +0000", "2024-01-02 00:00:00.000000000 +0000")
+        oldn = "/dev/null" if kind == "add" else "a/" + path
+        text = emit.emit_unified(oldn, "b/" + path, hs, "2024-01-01 00:00:00.000000000 +0000", "2024-01-02 00:00:00.000000000 +0000")
         if kind == "delete":
-            text = emit.emit_unified(path, "/dev/null", hs, "2024-01-01 00:00:00.000000000 +0000", "1970-01-01 00:00:00.000000000 +0000")
+            text = emit.emit_unified("a/" + path, "/dev/null", hs, "2024-01-01 00:00:00.000000000 +0000", "1970-01-01 00:00:00.000000000 +0000")
     return dict(path=path, newpath=newpath, a=a, b=b, text=text, fmt=fmt, kind=kind, hs=hs, ops=ops, mode_old=mo, mode_new=mn, w=w)
 
 
@@ -83,7 +82,7 @@ def base_scenario(rng, secs, opts=None, via_stdin=False, drift=0.0, modes=None, 
     o = dict(opts or {})
     # git sections carry a/ b/ prefixes: -p1; the others carry plain relative names: -p0
     if strip is None:
-        strip = 1 if all(s["fmt"] == "git" for s in secs) else 0
+        strip = 1      # every emitted section names its files a/<path> and b/<path>
     if "p" not in o:
         o["p"] = strip
     scn = dict(tree=tree, opts=o, umask=0o022)
